@@ -156,6 +156,26 @@ func readerDigest(r index.IndexReader, ids []string, ikeys []string) (string, st
 	if int(dc) != len(all) {
 		return "", fmt.Sprintf("the reader's DocCount is %d but it enumerates %d documents %v", dc, len(all), all)
 	}
+	// the term dictionary of the text field with its per-term counts (what idf and the
+	// dictionary-driven searchers are computed from)
+	if fd, err := r.FieldDict("t"); err == nil {
+		var entries []string
+		for {
+			e, err := fd.Next()
+			if err != nil {
+				fd.Close()
+				return "", "FieldDict.Next: " + err.Error()
+			}
+			if e == nil {
+				break
+			}
+			entries = append(entries, fmt.Sprintf("%s:%d", e.Term, e.Count))
+		}
+		fd.Close()
+		fmt.Fprintf(&sb, "dict(t)=%v;", entries)
+	} else {
+		return "", "FieldDict: " + err.Error()
+	}
 	for _, id := range ids {
 		d, err := r.Document(id)
 		if err != nil {
@@ -202,7 +222,7 @@ func TestC04Readers(t *testing.T) {
 	ev.SetRule("rapid: 1-3 concurrent writers (each batch rewrites the writer's four documents with n=j and its internal key, plus churn on shared ids), 1-3 search clients, 0-2 long-lived index readers, forced merges, on scorch disk (drawn persister/merge options, in-memory merges with several workers, numSnapshotsToKeep 1-3), scorch memory, upsidedown gtreap/boltdb; seeded delay plan at lock-free hook points and GOMAXPROCS in {1,2,4,16}; " +
 		"oracle over the recorded observations: (1) one search result never shows part of a batch; (2) the batch seen is >= the writer's acknowledged count read before the search and <= its submitted count read after; (3) per client the batch numbers never decrease (searches and internal-key reads interleaved); (4) Total equals the hits of the same result; (5) a held reader's digest (DocCount, enumerated ids, stored documents, internals, three term postings) is identical at acquisition, after all writers/merges finished and before Close, and its DocCount equals the number of ids it enumerates; " +
 		"contended-ids mode: 2-4 writers issue 2-10 Batch/Index/Delete calls each on the same 1-3 ids at the same time (all engines, documents up to a few KB so that analysis takes time); at quiescence every id must hold the version of some writer's last call on it, be listed and counted once, and be found under the terms of that version only (non-trivial there = an id written by >=2 writers); " +
-		"(6) every held reader, read for doc values only after all writes (the clients sort on n through newer snapshots meanwhile; one case in three uses a mapping without persisted doc values), serves doc values of n equal to the stored n of its own view of each document; " +
+		"(5b) the digest of a held reader includes the term dictionary of field t with its per-term counts; (6) every held reader, read for doc values only after all writes (the clients sort on n through newer snapshots meanwhile; one case in three uses a mapping without persisted doc values), serves doc values of n equal to the stored n of its own view of each document; " +
 		"non-trivial = >=1 read overlapped an in-flight batch and >=1 reader was held across >=1 later batch")
 	ev.Assume("DocCount and Search are separate calls, so count/contents agreement is only required inside one result or one reader; schedules are sampled")
 	checkPropN(t, "C04", 60, func(t *rapid.T) {
